@@ -84,7 +84,7 @@ func (node *tagCycleNode) Execute(ctx *ExecutionContext, writer TemplateWriter) 
 // print writes a cycle value the way {{ }} would: autoescaped unless marked safe.
 func (node *tagCycleNode) print(ctx *ExecutionContext, item IEvaluator, val *Value, writer TemplateWriter) *Error {
 	if ctx.Autoescape && !item.FilterApplied("safe") && !val.safe && (val.IsString() || val.isStringer()) {
-		escaped, err := filters["escape"](val, nil)
+		escaped, err := filters["escape"](val, AsValue(nil))
 		if err != nil {
 			return err
 		}
